@@ -1,4 +1,5 @@
 import MosnVerif.Gen.PoolMux
+import MosnVerif.Gen.PoolMuxMoves
 import MosnVerif.Model.PoolSpec
 /-!
 Model of the xprotocol multiplex pool (`pkg/stream/xprotocol/connpool_multiplex.go`): one *slot* per allowed
@@ -7,14 +8,20 @@ connection; a slot holds nothing, a placeholder client (no connection) or a clie
 the slot (Init / GoAway → Connecting) and has a goroutine connect a successor; a client also has the separate `goaway`
 word (the repaired code).  Many requests share one connection.
 
-Books: the slots, the clients' words, `Requests().Cur()`.  Truth: which TCP connections are open, which streams are in
+Books: the slots, the clients' words, `Requests().Cur()`, the host / cluster upstream `request_active` gauges.  Truth: which TCP connections are open, which streams are in
 flight on which connection, what each stream's listeners were told.  Every decision is a regenerated function of
 `Gen/PoolMux.lean` (and `Gen/Pool.lean` for the requests breaker and `BaseStream`).  One operation = one call into the
 pool / one event, run to quiescence (the connecting goroutine has finished, close events are delivered, streams of a
 dead connection are reset and destroyed).
+
+Which conserved counters an admitted `NewStream` moves — separately for a ONE-WAY request (`receiver == nil`) and an
+ordinary one — and what `OnDestroyStream` gives back are the regenerated `Gen/PoolMuxMoves.lean`.  A one-way client
+stream is not entered into the connection's stream table, gets no response and is never destroyed or reset (conn.go
+`NewStream`, stream.go `endStream`; the proxy skips the upstream reset for one-way requests): in the model it is a
+result (`ok c`) and nothing else — whatever it took would never be given back.
 -/
 namespace MosnVerif.Model.PoolMux
-open MosnVerif.Gen.PoolMux MosnVerif.Gen.Pool
+open MosnVerif.Gen.PoolMux MosnVerif.Gen.PoolMuxMoves MosnVerif.Gen.Pool
 open MosnVerif.Model.Pool (Stream Dial)
 
 /-- a client object that owns a connection -/
@@ -41,6 +48,8 @@ structure State where
   nStreams : Nat := 0
   stream   : Nat → Stream := fun _ => { conn := 0 }
   reqCur   : Int := 0
+  actHost    : Int := 0     -- host's upstream request_active gauge
+  actCluster : Int := 0     -- cluster's upstream request_active gauge
   ext      : Nat := 0
   shutdown : Bool := false
   rr       : Nat := 0       -- currentCheckAndInitIdx
@@ -75,6 +84,20 @@ def State.setSlotState (s : State) (i : Nat) (st : Nat) : State :=
   | .fake _ => s.setSlot i (.fake st)
   | .real c => s.updC c (fun cl => { cl with state := st })
 
+def iter (f : Int → Int) : Nat → Int → Int
+  | 0, x => x
+  | n + 1, x => iter f n (f x)
+
+/-- the regenerated movements `m` of one call path, carried out `n` times -/
+def movesN (m : Moves) (n : Nat) (s : State) : State :=
+  { s with
+    reqCur := iter (fun x => iter (resDecrease s.maxReq) m.reqDec (iter (resIncrease s.maxReq) m.reqInc x)) n s.reqCur,
+    actHost := s.actHost + n * m.host, actCluster := s.actCluster + n * m.cluster }
+
+/-- what a destroyed stream gives back: `OnDestroyStream` runs only for streams the pool's client listens to -/
+def destroyMoves : Moves :=
+  if (muxLeaseMoves false).listens then muxDestroyMoves else { reqInc := 0, reqDec := 0, host := 0, cluster := 0, listens := false }
+
 /-- pool part of a close event of client `c` (`onConnectionEvent`, close branch) -/
 def poolOnClose (s : State) (c : Nat) : State :=
   let cl := s.client c
@@ -84,17 +107,13 @@ def poolOnClose (s : State) (c : Nat) : State :=
 def netDown (s : State) (c : Nat) : State :=
   if (s.client c).netOpen then poolOnClose (s.updC c (fun cl => { cl with netOpen := false })) c else s
 
-def iter (f : Int → Int) : Nat → Int → Int
-  | 0, x => x
-  | n + 1, x => iter f n (f x)
-
 /-- every live stream on connection `c` is reset (`reason`) and destroyed (`streamConn.Reset`); their table entries
 stay (`connReset`), so no `OnDestroyStream` sees an empty table: nothing is closed here. -/
 def killOn (s : State) (c : Nat) (reason : String) : State :=
-  { s with
-    stream := fun i => let st := s.stream i
-      if st.live && st.conn == c then { st with state := destroyedState, resets := st.resets ++ [reason], destroys := st.destroys + 1 } else st
-    reqCur := iter (resDecrease s.maxReq) (s.activeOn c) s.reqCur }
+  movesN destroyMoves (s.activeOn c)
+    { s with
+      stream := fun i => let st := s.stream i
+        if st.live && st.conn == c then { st with state := destroyedState, resets := st.resets ++ [reason], destroys := st.destroys + 1 } else st }
 
 /-- the connection of client `c` closes (either side, or a decode error) -/
 def netClose (s : State) (c : Nat) (reason : String) : State :=
@@ -104,7 +123,7 @@ def connLost : String := reasonStreamConnectionFailed
 
 /-- `OnDestroyStream` of the pool's client after stream `i` left the table -/
 def onStreamDestroy (s : State) (c : Nat) : State :=
-  let s1 := { s with reqCur := resDecrease s.maxReq s.reqCur }
+  let s1 := movesN destroyMoves 1 s
   let cl := s1.client c
   -- (closing = the close event + the reset of whatever is still in the connection's table: nothing, here)
   if muxCloseOnDestroy cl.state cl.goaway (s1.activeOn c) then netClose s1 c connLost else s1
@@ -125,6 +144,7 @@ def endStream (s : State) (i : Nat) (reset : Option String) : State :=
 inductive Op
   | checkAndInit (slot : Option Nat) (dial : Dial)   -- none: no slot in the downstream context (round robin)
   | newStream (slot : Nat)
+  | newStreamOneway (slot : Nat)   -- `NewStream(ctx, nil)`: a one-way request
   | response (i : Nat)
   | localReset (i : Nat)
   | garbage (i : Nat)
@@ -182,8 +202,11 @@ def checkAndInit (s : State) (slot : Option Nat) (dial : Dial) : State × Res :=
     if s.nSlots > 1 then checkSlot { s with rr := s.rr + 1 } ((s.rr + 1) % s.nSlots) dial else checkSlot s 0 dial
 
 def lease (s : State) (c : Nat) : State :=
-  { s with reqCur := resIncrease s.maxReq s.reqCur, nStreams := s.nStreams + 1,
-           stream := fun k => if k = s.nStreams then { conn := c } else s.stream k }
+  movesN (muxLeaseMoves false) 1
+    { s with nStreams := s.nStreams + 1, stream := fun k => if k = s.nStreams then { conn := c } else s.stream k }
+
+/-- an admitted one-way request: the regenerated movements of the `receiver == nil` path; no stream is entered anywhere -/
+def leaseOneway (s : State) : State := movesN (muxLeaseMoves true) 1 s
 
 def newStream (s : State) (k : Nat) : State × Res :=
   let i := slotIdx s k
@@ -196,12 +219,25 @@ def newStream (s : State) (k : Nat) : State × Res :=
     else if !canCreate s.maxReq s.reqCur then (s, .overflow)
     else (lease s c, .ok c)
 
+/-- `NewStream(ctx, nil)`: the same tests as for an ordinary request -/
+def newStreamOneway (s : State) (k : Nat) : State × Res :=
+  let i := slotIdx s k
+  if i ≥ s.nSlots then (s, .connFail) else
+  match s.slot i with
+  | .empty => (s, .connFail)
+  | .fake _ => (s, .connFail)
+  | .real c =>
+    if muxUnusable (s.client c).state then (s, .connFail)
+    else if !canCreate s.maxReq s.reqCur then (s, .overflow)
+    else (leaseOneway s, .ok c)
+
 def slotClients (s : State) : List Nat :=
   (List.range s.nSlots).filterMap (fun i => match s.slot i with | .real c => some c | _ => none)
 
 def step (s : State) : Op → State × Res
   | .checkAndInit slot dial => checkAndInit s slot dial
   | .newStream k => newStream s k
+  | .newStreamOneway k => newStreamOneway s k
   | .response i =>
     if i < s.nStreams ∧ (s.stream i).live then (endStream s i none, .none) else (s, .none)
   | .localReset i =>
@@ -253,7 +289,7 @@ def renderStreams (s : State) : String :=
     s!"{st.conn}:{st.recv}:{String.join (st.resets.map MosnVerif.Model.Pool.reasonLetter)}:{st.destroys}"))
 
 def render (res : Res) (s : State) : String :=
-  s!"{res.render};b{renderSlots s};d{if s.shutdown then 1 else 0};q{s.reqCur};n{renderConns s};s{renderStreams s}"
+  s!"{res.render};b{renderSlots s};d{if s.shutdown then 1 else 0};q{s.reqCur};a{s.actHost}:{s.actCluster};n{renderConns s};s{renderStreams s}"
 
 /-! ### executable property predicate on observations (declarative; never looks at the pool's decisions) -/
 
@@ -266,6 +302,8 @@ structure OSlot where
 structure Obs where
   slots   : List OSlot
   reqCur  : Int
+  actHost    : Int      -- host's upstream request_active gauge
+  actCluster : Int      -- cluster's upstream request_active gauge
   conns   : List Bool
   streams : List MosnVerif.Model.Pool.OStream
   deriving DecidableEq, Repr
@@ -275,11 +313,14 @@ def Obs.isOpen (o : Obs) (c : Nat) : Bool := o.conns.getD c false
 /-- connections the pool would lease a request on -/
 def Obs.usable (o : Obs) : List Nat := o.slots.filterMap (fun sl => if sl.present && sl.connected then sl.conn else none)
 
-/-- the quiescent-point statement for a multiplex pool: counters equal the truth; a connection the pool would use is
+/-- the quiescent-point statement for a multiplex pool: counters equal the truth (the requests breaker and both upstream
+request_active gauges count exactly the requests that will end: those in flight with a receiver — a one-way request,
+which nothing ever ends, holds nothing); a connection the pool would use is
 open; requests in flight are on open connections; an open connection is one the pool uses or is draining (still has a
 request in flight) — never open, unused and unreachable; every stream ends at most once. -/
 def obsSpec (maxReq ext : Nat) (o : Obs) : Bool :=
   decide (o.reqCur = if maxReq = 0 then 0 else (ext : Int) + (o.liveConns.length : Int)) &&
+  decide (o.actHost = (o.liveConns.length : Int)) && decide (o.actCluster = (o.liveConns.length : Int)) &&
   o.usable.all (fun c => o.isOpen c) &&
   o.liveConns.all (fun c => o.isOpen c) &&
   (List.range o.conns.length).all (fun c => !o.isOpen c || o.usable.contains c || o.liveConns.contains c) &&
@@ -296,12 +337,21 @@ def newStreamSpec (maxReq ext : Nat) (idx : Nat) (before : Obs) (granted : Optio
   (granted.isSome || after == before) &&
   (granted == (if room then usable else none))
 
+/-- one ONE-WAY `NewStream` against the observation before it: admitted exactly like an ordinary request — and granted or
+not it changes no counter, slot, connection or stream: nothing would ever give it back. -/
+def onewaySpec (maxReq ext : Nat) (idx : Nat) (before : Obs) (granted : Option Nat) (after : Obs) : Bool :=
+  let room := decide (maxReq = 0 ∨ (ext : Int) + before.liveConns.length < maxReq)
+  let usable := match before.slots[idx]? with
+    | some sl => if sl.present && sl.connected then sl.conn else none
+    | none => none
+  after == before && (granted == (if room then usable else none))
+
 def obsOf (s : State) : Obs :=
   { slots := (List.range s.nSlots).map (fun i => match s.slot i with
       | .empty => ⟨false, false, none⟩
       | .fake st => ⟨true, decide (st = muxConnected), none⟩
       | .real c => ⟨true, decide ((s.client c).state = muxConnected), some c⟩),
-    reqCur := s.reqCur,
+    reqCur := s.reqCur, actHost := s.actHost, actCluster := s.actCluster,
     conns := (List.range s.nClients).map (fun c => (s.client c).netOpen),
     streams := (List.range s.nStreams).map (fun i =>
       let st := s.stream i
